@@ -6,9 +6,13 @@
      - a hard link (no directory, no symlink, non-empty Linkname) to a path no earlier STAT named;
      - content for an id that no earlier STAT announced as a regular file (mode without type
        bits, empty Linkname).
-   Packets after FIN are never looked at; ERR ends the stream. *)
+   Packets after FIN are never looked at; ERR ends the stream.
+   With ReceiveOpt.MetadataOnly ([spec_bad_m]): a STAT whose path is the listing name
+   ".fsutil-metadata" is skipped by the receiver (it only takes an id), only entries the
+   selector transfers in full may get content or be the source of a hard link that is
+   transferred. *)
 From Coq Require Import List NArith Bool.
-From FS Require Import Sx Model.Path Model.Stat Model.Validator Model.Fs Model.DiskWriterFs.
+From FS Require Import Sx Model.Path Model.Stat Model.Validator Model.Fs Model.DiskWriterFs Model.RecvMeta.
 Import ListNotations.
 Open Scope N_scope.
 Open Scope bool_scope.
@@ -39,3 +43,32 @@ Fixpoint spec_bad (pks : list packet) (s : sspec) (i : nat) : option nat :=
   | PData id d :: r => if negb (memN id (ss_ids s)) then Some i else spec_bad r s (S i)
   end.
 Definition sspec_init : sspec := {| ss_acc := []; ss_paths := []; ss_next := 0; ss_ids := [] |}.
+
+Definition sspec_stat_m (sel : stat -> bool) (s : sspec) (st : stat) : sspec :=
+  {| ss_acc := ss_acc s ++ [item_of st];
+     ss_paths := if sel st then st_path st :: ss_paths s else ss_paths s;     (* what reaches the disk *)
+     ss_next := ss_next s + 1;
+     ss_ids := if sel st && mode_is_regular (st_mode st) && is_nil (st_linkname st) then ss_next s :: ss_ids s else ss_ids s |}.
+(* an entry that is only recorded must still be in order; one that is transferred must, if it
+   is a hard link, name an entry that was transferred *)
+Definition stat_bad_m (sel : stat -> bool) (s : sspec) (st : stat) : bool :=
+  negb (spec_ok_b (ss_acc s) (item_of st))
+  || (sel st && is_hardlink_stat st && negb (mem_bytes (st_linkname st) (ss_paths s))).
+Definition sspec_skip (s : sspec) : sspec :=
+  {| ss_acc := ss_acc s; ss_paths := ss_paths s; ss_next := ss_next s + 1; ss_ids := ss_ids s |}.
+
+Fixpoint spec_bad_m (sel : stat -> bool) (pks : list packet) (s : sspec) (i : nat) : option nat :=
+  match pks with
+  | [] => None
+  | PFin :: _ => None
+  | PErr :: _ => None
+  | POther :: r => spec_bad_m sel r s (S i)
+  | PStat None :: r => spec_bad_m sel r s (S i)
+  | PStat (Some st) :: r =>
+    if is_listing st then spec_bad_m sel r (sspec_skip s) (S i)
+    else if stat_bad_m sel s st then Some i else spec_bad_m sel r (sspec_stat_m sel s st) (S i)
+  | PData id d :: r => if negb (memN id (ss_ids s)) then Some i else spec_bad_m sel r s (S i)
+  end.
+
+Definition spec_bad_opt (mo : option (stat -> bool)) (pks : list packet) : option nat :=
+  match mo with None => spec_bad pks sspec_init 0 | Some sel => spec_bad_m sel pks sspec_init 0 end.
